@@ -163,6 +163,34 @@ type c11hsCase struct {
 	Expect  string `json:"expectation"`
 }
 
+// drawVersions draws a proposed version list; with10 puts the only existing protocol version (10) somewhere in it.
+func drawVersions(rt *rapid.T, with10 bool) []int32 {
+	n := rapid.IntRange(1, 4).Draw(rt, "nver")
+	var vs []int32
+	for i := 0; i < n; i++ {
+		var v int
+		switch rapid.IntRange(0, 5).Draw(rt, "verclass") {
+		case 0:
+			v = rapid.IntRange(1, 9).Draw(rt, "verbelow")
+		case 1:
+			v = rapid.IntRange(11, 20).Draw(rt, "verabove")
+		case 2:
+			v = 0
+		case 3:
+			v = rapid.IntRange(-1000, -1).Draw(rt, "verneg")
+		case 4:
+			v = rapid.IntRange(21, 100000).Draw(rt, "verbig")
+		default:
+			v = []int{2147483647, -2147483648, 255, 256, 65535, 65536}[rapid.IntRange(0, 5).Draw(rt, "verextreme")]
+		}
+		vs = append(vs, int32(v))
+	}
+	if with10 {
+		vs[rapid.IntRange(0, len(vs)-1).Draw(rt, "pos10")] = 10
+	}
+	return vs
+}
+
 func TestC11_Handshake(t *testing.T) {
 	ev.Rule(c11, "handshake family: raw TCP peer sends a drawn handshake variation (no/wrong/partial protocol line, first frame that is not a connect request, empty or unknown-only version list, unknown compression ids, lz4 offered then plain bytes, truncated request, zero-length frame, garbage), then tries to open a channel carrying a per-case marker; a well-behaved real client runs echo traffic on another connection throughout; oracle: handler invocations with that marker are 0 unless the handshake completed with the protocol line and a common version, a refused or violating connection is closed (EOF within 10 s) once the complete violating line/frame was sent, the healthy client keeps working, the server keeps running; non-trivial = every variant that must be refused; distinct by sent bytes")
 	e, err := newC11Env()
@@ -171,7 +199,7 @@ func TestC11_Handshake(t *testing.T) {
 	}
 	defer e.close()
 	variants := []string{"no-line", "wrong-line", "http-line", "partial-line", "first-frame-open", "first-frame-garbage-msg", "empty-versions", "unknown-versions",
-		"unknown-compression", "lz4-then-plain", "truncated-request", "zero-length-frame", "garbage", "response-as-request", "valid"}
+		"mixed-versions", "unknown-compression", "lz4-then-plain", "truncated-request", "zero-length-frame", "garbage", "response-as-request", "valid"}
 	ev.CheckScaled(t, c11, 1, 1, func(rt *rapid.T) {
 		v := variants[rapid.IntRange(0, len(variants)-1).Draw(rt, "variant")]
 		mk := marker()
@@ -206,8 +234,12 @@ func TestC11_Handshake(t *testing.T) {
 		case "empty-versions":
 			send = append([]byte(netfx.ProtocolLine), req(nil, nil)...)
 		case "unknown-versions":
-			vs := []int32{int32(rapid.IntRange(11, 1000).Draw(rt, "ver")), 0, -1}
-			send = append([]byte(netfx.ProtocolLine), req(vs[:rapid.IntRange(1, 3).Draw(rt, "nver")], nil)...)
+			// any list without the one existing version (10): neighbours below and above it, zero, negative, extreme
+			send = append([]byte(netfx.ProtocolLine), req(drawVersions(rt, false), nil)...)
+		case "mixed-versions":
+			// the existing version among unknown ones, at any position: must be served
+			send = append([]byte(netfx.ProtocolLine), req(drawVersions(rt, true), nil)...)
+			mustServe, mustClose = true, false
 		case "unknown-compression":
 			send = append([]byte(netfx.ProtocolLine), req([]int32{10}, []int32{int32(rapid.IntRange(2, 99).Draw(rt, "comp"))})...)
 			mustServe, mustClose = true, false
